@@ -38,9 +38,21 @@ class Monitor(object):
         if not isinstance(t, int) or isinstance(t, bool):
             ctx.count('unjudged.target-type')
             return
+        if not isinstance(g, str) or not isinstance(e, str):
+            ctx.count('unjudged.hostile-argument-types')
+            return
         case = {'g': g, 'e': e, 't': t}
         known = (g, e) in self.live
-        if not known:
+        respelled = not known and (g.strip().upper(), e.strip().upper()) in self.live
+        if respelled:
+            # another spelling (letter case, surrounding blanks) of a scored pair.  Whether it is answered at all is the
+            # library's business, but an answer is judged like any other: with the real score of the very same spelling
+            if out.ok and out.value is None:
+                ctx.count('unspecified.respelled-pair-not-answered')
+                return
+            ctx.count('judged.respelled-pair-answered')
+            e_kind = e.strip().upper()
+        elif not known:
             if g not in ('M', 'F') and (g, e) not in UNKNOWN:
                 ctx.count('unjudged.gender-spelling')
                 return
@@ -54,7 +66,7 @@ class Monitor(object):
             ctx.violation('raise:%s' % type(out.value).__name__, case, 'a mark', repr(out))
             return
         p = out.value
-        if isinstance(p, (int, float)) and p < 0 and O.kind_of(e) == 't' and t > 1500:
+        if isinstance(p, (int, float)) and p < 0 and O.kind_of(e.strip().upper()) == 't' and t > 1500:
             # beyond the property's target range and beyond the score of a zero time: no mark can reach it
             ctx.count('unspecified.target-beyond-the-score-of-a-zero-time')
             return
@@ -62,7 +74,7 @@ class Monitor(object):
         if n is None or abs(p * 100 - n) > 1e-6 or n < 0:
             ctx.violation('answer-off-grid', case, 'mark on the 0.01 grid', repr(p))
             return
-        k = O.kind_of(e)
+        k = O.kind_of(e.strip().upper() if respelled else e)
         got = self.raw_score(g, e, n / 100)
         ctx.count('eval.score-of-answer')
         tt = max(t, 0)
@@ -91,6 +103,8 @@ class Monitor(object):
                     ctx.nt((g, e, t))
 
     def blame(self, g, e, n, got):
+        if (g, e) not in self.live:
+            return 'respelled-pair'
         exp = O.exact_score(core.REPO, self.live, g, e, n)
         return 'forward-score-wrong' if exp[0] == 'points' and exp[1] != got else 'inverse-wrong'
 
@@ -116,6 +130,39 @@ def run_shard(ctx, spec):
                 ctx.count('eval.esaa-interleaved')
             for t in range(-10, hi + 1):
                 attach.call(mon.perf, g, e, t)
+    # other spellings of the shard's rows (the forward and the inverse function must agree on what they accept)
+    import random
+    rnd = random.Random(ctx.seed * 7919 + spec['i'])
+    for (g, e) in rows:
+        for gs, es in [(g.lower(), e), (g.lower(), e.lower()), (g, e.lower()), (g, e.capitalize()), (g, e + ' '), (g, e + '\n'),
+                       (g, ' ' + e), (g.lower(), e + '\t'), (g + ' ', e)]:
+            if (gs, es) in mon.live:
+                continue
+            for t in list(range(0, 1400, 53)) + [rnd.randrange(1, 1300) for _ in range(10)]:
+                attach.call(mon.perf, gs, es, t)
+    # history: rows of every kind interleaved, with the calls of a careless caller (wrong argument types, most of them refused)
+    # in between - a refused call must leave nothing behind that a later well-formed call can see
+    allrows = sorted(mon.live)
+    raw = attach.original(mon.perf)
+    for _ in range(700 if ctx.tier == 'quick' else 6000):
+        (g1, e1), (g2, e2) = rnd.choice(allrows), rnd.choice(allrows)
+        attach.call(mon.perf, g1, e1, rnd.randrange(1, 1300))
+        bad_e = [int(e2) if e2.isdigit() else 100, None, 1.5, [e2], e2.encode(), (e2,)]
+        k = rnd.randrange(6)
+        if k == 0:
+            attach.call(raw, g2, rnd.choice(bad_e), 800)
+        elif k == 1:
+            attach.call(mon.raw_score, g2, rnd.choice(bad_e), 10.0)
+        elif k == 2:
+            attach.call(raw, g2, e2, rnd.choice(['800', None, [800], 1e400, float('nan')]))
+        elif k == 3:
+            attach.call(mon.raw_score, g2, e2, rnd.choice(['abc', None, [1.0]]))
+        elif k == 4:
+            attach.call(raw, rnd.choice([None, 1, b'M']), e2, 800)
+        else:
+            attach.call(mon.raw_score, g2, e2, 10.0, age=rnd.choice(['40', [40], 1e400]))
+        ctx.count('eval.hostile-call')
+        attach.call(mon.perf, g2, e2, rnd.randrange(1, 1300))
     if spec['i'] == 0:
         for g, e in UNKNOWN:
             for t in (-5, 0, 1, 500, 1500):
